@@ -98,12 +98,13 @@ func genC14(r *h.Rng, tier string, idx int) *h.Plan {
 	p := &h.Plan{Cfg: map[string]interface{}{}}
 	p.Cfg["state"] = r.Pick([]string{"indexed", "linear"})
 	// timeout configuration: location control, system default, disabled
-	mode := r.Pick([]string{"control", "default", "disabled-flag", "negative"})
+	// (control-nodefault: the location has its own limit while the system default says "none")
+	mode := r.Pick([]string{"control", "default", "disabled-flag", "negative", "control-nodefault", "control-zerodefault", "nodefault"})
 	p.Cfg["timeout_mode"] = mode
 	timeouts := []time.Duration{time.Millisecond, 50 * time.Millisecond, 100 * time.Millisecond, time.Second, 5 * time.Second}
 	T := timeouts[r.Intn(len(timeouts))]
 	p.Cfg["timeout_ns"] = int64(T)
-	on := mode == "control" || mode == "default"
+	on := mode == "control" || mode == "default" || mode == "control-nodefault" || mode == "control-zerodefault"
 	p.Cfg["shared_ctx"] = r.Bool()
 	n := r.Range(2, 6)
 	for i := 0; i < n; i++ {
@@ -123,7 +124,7 @@ func execC14(t *testing.T, plan *h.Plan, trace bool) *h.Result {
 	var tr []string
 	opIdx := 0
 	state := plan.CfgS("state", "indexed")
-	h.Arm(60*time.Second, fmt.Sprintf("C14 run_seed=%d", plan.RunSeed))
+	h.Arm(15*time.Second, fmt.Sprintf("C14 run_seed=%d", plan.RunSeed))
 	defer h.Disarm()
 	fail := func(class, sig, f string, a ...interface{}) {
 		if res.Viol == nil {
@@ -149,6 +150,15 @@ func execC14(t *testing.T, plan *h.Plan, trace bool) *h.Result {
 			on = false
 		case "negative":
 			ctl.JavascriptTimeout = core.Duration(-1)
+			on = false
+		case "control-nodefault":
+			ctl.JavascriptTimeout = core.Duration(T)
+			ps.DefaultJavascriptTimeout = -1
+		case "control-zerodefault":
+			ctl.JavascriptTimeout = core.Duration(T)
+			ps.DefaultJavascriptTimeout = 0
+		case "nodefault":
+			ps.DefaultJavascriptTimeout = -1
 			on = false
 		}
 		back := h.NewBackend("mem")
